@@ -9,6 +9,7 @@
   capacity pressure.
 -/
 import TmVerif.Sched.Expire
+import TmVerif.Sched.InvAffOps
 
 namespace TmVerif.Sched
 
@@ -29,9 +30,9 @@ theorem C08_retention_keep (c c' : Cell) (qs : List (List (Nat × Bool))) (ch : 
     (h : schedule c qs ch = .ok c') :
     ∃ a', c'.app? x = some a' ∧ a'.server = some sid :=
   keep_schedule hc
-    { app := ha, srv := hs, on := hon, notUp := by rw [hdown]; decide, notBl := hnb, notRenew := hnr,
+    { app := ha, srv := hs, on := hon, notBl := hnb, notRenew := hnr,
       hasId := hid, idValid := hidv, labelOk := hlab, traitsOk := htr,
-      stay := ⟨fun _ => hwin, fun hf => (by rw [hdown] at hf; cases hf)⟩ } hcap h
+      stay := ⟨fun _ => hwin, fun hf => (by rw [hdown] at hf; cases hf)⟩ } (by rw [hdown]; decide) hcap h
 
 /-- **C08 (frozen keeps).** An instance on a frozen server that is not marked for unscheduling
     (and to which none of the other exceptions applies) is still on that server after the cycle. -/
@@ -48,9 +49,9 @@ theorem C08_frozen_keep (c c' : Cell) (qs : List (List (Nat × Bool))) (ch : Lis
     (h : schedule c qs ch = .ok c') :
     ∃ a', c'.app? x = some a' ∧ a'.server = some sid :=
   keep_schedule hc
-    { app := ha, srv := hs, on := hon, notUp := by rw [hfrozen]; decide, notBl := hnb, notRenew := hnr,
+    { app := ha, srv := hs, on := hon, notBl := hnb, notRenew := hnr,
       hasId := hid, idValid := hidv, labelOk := hlab, traitsOk := htr,
-      stay := ⟨fun hd => (by rw [hfrozen] at hd; cases hd), fun _ => hmark⟩ } hcap h
+      stay := ⟨fun hd => (by rw [hfrozen] at hd; cases hd), fun _ => hmark⟩ } (by rw [hfrozen]; decide) hcap h
 
 /-- **C08 (no new instance on a server that is not up).** After a cycle every instance on a down or
     frozen server was already on that server when the cycle started. -/
@@ -88,6 +89,34 @@ theorem C08_frozen_unschedule (c c' : Cell) (qs : List (List (Nat × Bool))) (ch
     (h : schedule c qs ch = .ok c') :
     ∀ a', c'.app? x = some a' → a'.server ≠ some sid :=
   off_schedule hc hs ha hleaf (Or.inr ⟨hfrozen, hmark⟩) h
+
+/-! ### The same two clauses for every reachable state, with no side condition on the topology:
+    in a state reached from the empty cell by any guarded history the server table and the tree
+    agree (`C04_tree`), so "the server is attached" is automatic. -/
+
+theorem C08_retention_expire_reachable (r l : Nat) (ops : List Op) (c c' : Cell)
+    (hg : GuardsHold (Cell.init r l) ops) (hl : LimGuards (Cell.init r l) ops)
+    (hrun : runOps (Cell.init r l) ops = .ok c)
+    (qs : List (List (Nat × Bool))) (ch : List Nat) (x : Nat) (a : App) (sid : Nat) (s : Srv)
+    (ha : c.app? x = some a) (hs : c.srv? sid = some s)
+    (hdown : s.state = .down) (hexp : expiresAt s a ≤ c.now)
+    (h : schedule c qs ch = .ok c') :
+    ∀ a', c'.app? x = some a' → a'.server ≠ some sid := by
+  have hall := affAll_runOps ops _ c (affAll_init r l) hg hl hrun
+  have hleaf : sid ∈ c.tree.leaves := (hall.tree.leaves sid).mpr ⟨s, srv?_mem hs, srv?_id hs⟩
+  exact off_schedule hall.cap hs ha hleaf (Or.inl ⟨hdown, hexp⟩) h
+
+theorem C08_frozen_unschedule_reachable (r l : Nat) (ops : List Op) (c c' : Cell)
+    (hg : GuardsHold (Cell.init r l) ops) (hl : LimGuards (Cell.init r l) ops)
+    (hrun : runOps (Cell.init r l) ops = .ok c)
+    (qs : List (List (Nat × Bool))) (ch : List Nat) (x : Nat) (a : App) (sid : Nat) (s : Srv)
+    (ha : c.app? x = some a) (hs : c.srv? sid = some s)
+    (hfrozen : s.state = .frozen) (hmark : a.unschedule = true)
+    (h : schedule c qs ch = .ok c') :
+    ∀ a', c'.app? x = some a' → a'.server ≠ some sid := by
+  have hall := affAll_runOps ops _ c (affAll_init r l) hg hl hrun
+  have hleaf : sid ∈ c.tree.leaves := (hall.tree.leaves sid).mpr ⟨s, srv?_mem hs, srv?_id hs⟩
+  exact off_schedule hall.cap hs ha hleaf (Or.inr ⟨hfrozen, hmark⟩) h
 
 /-! ### Non-vacuity: a down server inside and outside the retention window. -/
 
